@@ -193,10 +193,10 @@ class Report:
               % (self.prop, self.tier, self.units, self.paths, self.obligations, self.discharged,
                  len(self.inconclusive), len(self.violations), len(self.known_hits), self.queries,
                  self.solver_s, wall))
+        if self.violations:
+            return EXIT_VIOLATION          # a replayed violation stands even if another unit had a harness problem
         if self.harness_errors:
             return EXIT_HARNESS
-        if self.violations:
-            return EXIT_VIOLATION
         return EXIT_OK
 
 
